@@ -90,7 +90,7 @@ def reader_validation(ctx):
             if not kids or fn.nodes[kids[0]].get("v") != 1:
                 continue
             # is this the array-slot hit? dominated by traits::acquire(bucket.value[i])
-            acq = [e for e in flow.find(fn, {"k": "call", "callee": "acquire"}) if "bucket.value[" in fn.expr(e) and fn.before(e, r)]
+            acq = [e for e in flow.find(fn, {"k": "call", "callee": "acquire"}) if any(fn.field_of(k).endswith("bucket::value[]") for k in fn.kids(e)) and fn.before(e, r)]
             if not acq:
                 continue
             mk = lambda f, nid: f.nodes[nid]["k"] == "bin" and f.nodes[nid]["op"] in ("==", "!=") and "delete_marker()" in f.expr(nid)
@@ -105,8 +105,15 @@ def reader_validation(ctx):
                     other = c[1] if "delete_marker()" in fn.expr(c[0]) else c[0]
                     bad = None
                     try:
+                        lv = [fn.nodes[x]["name"] for x in fn.subtree(other) if fn.nodes[x]["k"] == "ref" and fn.nodes[x].get("dk") == "local"]
                         for i in range(0, 4):
-                            if evalx(fn, other, {"i": i}) != i + 1:
+                            env_ = {nm: i for nm in lv}
+                            for nm in list(lv):
+                                d_ = flow.unique_def(fn, nm)
+                                if d_ is not None and fn.nodes[d_]["k"] == "bin":
+                                    env_.pop(nm)   # e.g. delete_marker = i + 1: evaluate through its definition
+                                    env_.update({fn.nodes[y]["name"]: i for y in fn.subtree(d_) if fn.nodes[y]["k"] == "ref" and fn.nodes[y].get("dk") == "local"})
+                            if evalx(fn, other, env_) != i + 1:
                                 bad = i
                     except Unknown as e:
                         ctx.note("marker expression not evaluable: %s" % e)
@@ -164,8 +171,10 @@ def marker_protocol(ctx):
                 bad = None
                 if idxnode is not None:
                     try:
+                        lv = {fn.nodes[x]["name"] for x in fn.subtree(marg) + fn.subtree(idxnode) if fn.nodes[x]["k"] == "ref" and fn.nodes[x].get("dk") in ("local",)}
                         for i in range(0, 3):
-                            env = {"i": i, "index": i, "this.index": i}
+                            env = {"index": i, "this.index": i}
+                            env.update({nm: i for nm in lv})
                             if evalx(fn, marg, env) != evalx(fn, idxnode, env) + 1:
                                 bad = i
                                 break
@@ -268,19 +277,21 @@ def grow_protocol(ctx):
                                               "pred": lambda fn, nid: fn.atomic(nid)["orders"][0] in ("release", "seq_cst")}], label="publish<unlock-resize",
           why="waiting threads re-read data_block after the resize lock is released")
     for fn in flow._shapes(ctx, V + "do_grow"):
-        # destination index uses the new block's mask under '&'
-        decls = [e for e in flow.find(fn, {"k": "decl"}) if "new_bucket = " in fn.expr(e)]
-        ok = bool(decls) and all(re.search(r"new_buckets\[\(h & new_block->mask\)\]", fn.expr(d)) for d in decls)
-        ctx.check(ok, rid, V + "do_grow#dest=h&new-mask", "items are re-inserted at new_buckets[h & new_block->mask] (%d sites)" % len(decls),
-                  "a rehashed item is not placed at new_buckets[h & new_block->mask]: lookups (h & mask) will not find it", fn.where(decls[0]) if decls else fn.where(), fn=fn)
+        # destination index: (rehash(key) & new_block->mask) - a '&' node with the mask field as one operand and the recomputed hash as the other
+        ands = [e for e, n_ in enumerate(fn.nodes) if n_["k"] == "bin" and n_["op"] in ("&", "%") and any(fn.nodes[k]["k"] == "member" and fn.nodes[k].get("leaf") == "mask" for k in fn.kids(e))]
+        ok = len(ands) >= 2 and all(fn.nodes[e]["op"] == "&" and flow.has_src(fn, e, "call:rehash") for e in ands)
+        decls = ands
+        ctx.check(ok, rid, V + "do_grow#dest=h&new-mask", "items are re-inserted at new_buckets[rehash(key) & new_block->mask] (%d sites)" % len(ands),
+                  "a rehashed item is not placed at new_buckets[rehash(key) & new_block->mask]: lookups (hash & mask) will not find it", fn.where(decls[0]) if decls else fn.where(), fn=fn)
         rh = flow.find(fn, call("rehash"))
         ctx.check(len(rh) >= 2, rid, V + "do_grow#rehash", "hash recomputed from the stored key for array and extension items",
                   "rehash must be applied to array items and extension items", fn.where(), fn=fn)
     # the lookup side uses the same mapping
     for f in ("try_get_value", "lock_bucket", "do_extract"):
         for fn in flow._shapes(ctx, V + f):
-            decls = [e for e in flow.find(fn, {"k": "decl"}) if re.search(r"bucket_idx = ", fn.expr(e))]
-            ok = bool(decls) and all(re.search(r"bucket_idx = \((h|hash) & (b|block)->->mask\)", fn.expr(d)) for d in decls)
+            ands = [e for e, n_ in enumerate(fn.nodes) if n_["k"] == "bin" and n_["op"] in ("&", "%") and any(fn.nodes[k]["k"] == "member" and fn.nodes[k].get("leaf") == "mask" for k in fn.kids(e))]
+            decls = ands
+            ok = bool(ands) and all(fn.nodes[e]["op"] == "&" and (flow.has_src(fn, e, "param#0") or flow.has_src(fn, e, "call:operator()")) for e in ands)
             ctx.check(ok, rid, V + f + "#bucket=h&mask", "bucket index = hash & block->mask",
                       "%s maps the hash to a bucket differently from grow()" % f, fn.where(decls[0]) if decls else fn.where(), fn=fn)
 
@@ -304,27 +315,27 @@ def iterator_rules(ctx):
     # move assignment: reset() before current_bucket is overwritten (F6)
     for fn in flow._shapes(ctx, I + "operator="):
         asg = [e for e in flow.find(fn, {"k": "bin"}) if fn.nodes[e]["op"] == "=" and fn.field_of(fn.kids(e)[0]).endswith("iterator::current_bucket")
-               and "other" in fn.expr(fn.kids(e)[1])]
+               and flow.has_src(fn, fn.kids(e)[1], "param#0")]
         rs = flow.find(fn, call("iterator::reset"))
         ok = bool(asg) and bool(rs) and all(any(fn.before(r, a) for r in rs) for a in asg)
         ctx.check(ok, rid, I + "operator=#reset-before-overwrite", "held lock released before current_bucket is overwritten",
                   "move assignment overwrites current_bucket without releasing the bucket lock the iterator holds (lock leaked: deadlock)", fn.where(), fn=fn)
-        clr = [e for e in flow.find(fn, {"k": "bin"}) if fn.nodes[e]["op"] == "=" and "other" in fn.expr(fn.kids(e)[0]) and fn.field_of(fn.kids(e)[0]).endswith("current_bucket")]
+        clr = [e for e in flow.find(fn, {"k": "bin"}) if fn.nodes[e]["op"] == "=" and flow.has_src(fn, fn.kids(e)[0], "param#0") and fn.field_of(fn.kids(e)[0]).endswith("current_bucket")]
         ctx.check(bool(clr), rid, I + "operator=#source-emptied", "moved-from iterator gives up the lock", "moved-from iterator keeps current_bucket: the lock is released twice",
                   fn.where(), fn=fn)
-        selfchk = [b for b, blk in fn.blocks.items() if "cond" in blk and "this" in fn.expr(blk["cond"]) and "other" in fn.expr(blk["cond"])]
+        selfchk = [b for b, blk in fn.blocks.items() if "cond" in blk and "this" in fn.expr(blk["cond"]) and flow.has_src(fn, blk["cond"], "param#0")]
         ctx.check(bool(selfchk), rid, I + "operator=#self-assignment", "self-assignment tested", "self move-assignment is not handled (lock lost)", fn.where(), fn=fn)
     for fn in flow._shapes(ctx, I + "iterator"):
         if not any(p["name"] == "other" for p in fn.params):
             continue
-        clr = [e for e in flow.find(fn, {"k": "bin"}) if fn.nodes[e]["op"] == "=" and "other" in fn.expr(fn.kids(e)[0]) and fn.field_of(fn.kids(e)[0]).endswith("current_bucket")]
+        clr = [e for e in flow.find(fn, {"k": "bin"}) if fn.nodes[e]["op"] == "=" and flow.has_src(fn, fn.kids(e)[0], "param#0") and fn.field_of(fn.kids(e)[0]).endswith("current_bucket")]
         ctx.check(bool(clr), rid, I + "iterator(iterator&&)#source-emptied", "moved-from iterator gives up the lock", "move constructor leaves the source owning the lock", fn.where(), fn=fn)
     # move_to_next_bucket: lock next (CAS) before unlocking the previous; unlock stores the saved old state to the saved old bucket
-    chain(ctx, rid, I + "move_to_next_bucket", [STATE_CAS, {"k": "call", "field": "bucket::state", "op": "store", "expr_re": r"^old_bucket", "desc": "old_bucket->state.store"}],
+    chain(ctx, rid, I + "move_to_next_bucket", [STATE_CAS, {"k": "call", "field": "bucket::state", "op": "store", "desc": "previous bucket's state.store"}],
           label="lock-next<unlock-prev")
     for fn in flow._shapes(ctx, I + "move_to_next_bucket"):
         st = [s for s in flow.find(fn, STATE_STORE)]
-        ok = bool(st) and all("old_bucket_state" in fn.expr(s) for s in st)
+        ok = bool(st) and all(flow.has_src(fn, fn.kids(s_)[1], "field:current_bucket_state") for s_ in st)
         ctx.check(ok, rid, I + "move_to_next_bucket#unlock-with-cached-state", "previous bucket unlocked with its cached state",
                   "the previous bucket is unlocked with a state other than the iterator's cached one", fn.where(), fn=fn)
         guarded(ctx, rid, I + "move_to_next_bucket", {"k": "call", "expr_re": r"^\(this->current_bucket_state = st\)", "desc": "current_bucket_state = st"}, STATE_CAS, True,
@@ -403,19 +414,28 @@ def cursor_prev_pairing(ctx):
                         for v in xn["vars"]:
                             if v.get("init") == e:
                                 tgt = v["name"]
-                if tgt is None or not re.search(r"(^|\.|->)extension$", tgt):
+                if tgt is None:
+                    continue
+                is_member_cursor = re.search(r"(\.|->)extension$", tgt) is not None
+                flows_to_cursor = any(xn["k"] == "bin" and xn["op"] == "=" and fn.field_of(fn.kids(x)[0]).endswith("iterator::extension") and fn.expr(fn.kids(x)[1]) == tgt
+                                      for x, xn in enumerate(fn.nodes))
+                walks_with_prev = pat.endswith("do_extract") and any(xn["k"] == "bin" and xn["op"] == "=" and fn.expr(fn.kids(x)[1]) == "&" + tgt + "->next" for x, xn in enumerate(fn.nodes))
+                if not (is_member_cursor or flows_to_cursor or walks_with_prev):
                     continue
                 adv.append((e, tgt))
             for e, tgt in adv:
                 obj = fn.kids(e)[0]
                 otxt = fn.expr(obj)
                 inst = pat + "#advance-keeps-prev"
-                if "prev" in otxt:
+                on_ = fn.nodes[obj]
+                through_ptr = (on_["k"] == "un" and on_.get("op") == "*") or (on_["k"] == "call" and on_.get("callee", "").endswith("operator*")) or (
+                    on_["k"] in ("ref", "member") and on_.get("t", "").endswith("*"))
+                if through_ptr:
                     ctx.ok(rid, inst, "cursor advanced by loading through the predecessor link (%s)" % otxt, fn.where(e), fn=fn)
                     continue
                 # cursor->next.load(): the predecessor link must be set to &cursor->next before
                 want = "&" + otxt
-                sets = [x for b, i, x, xn in fn.events() if xn["k"] == "bin" and xn["op"] == "=" and "prev" in fn.expr(fn.kids(x)[0]) and fn.expr(fn.kids(x)[1]) == want]
+                sets = [x for b, i, x, xn in fn.events() if xn["k"] == "bin" and xn["op"] == "=" and "std::atomic" in fn.nodes[fn.kids(x)[0]].get("t", "") and fn.nodes[fn.kids(x)[0]].get("t", "").endswith("*") and fn.expr(fn.kids(x)[1]) == want]
                 ok = any(fn.before(s, e) for s in sets)
                 ctx.check(ok, rid, inst, "predecessor link set to %s before the cursor advances" % want,
                           "the extension cursor advances along %s but the exported predecessor link (prev) is not advanced with it: erase(iterator&) later unlinks "
